@@ -210,3 +210,10 @@ Definition inside_super (super : list pt -> list pt) (pts : list pt) : Prop :=
   let '(l, t, r) := super_gtri super pts in
   orient l t r < 0 /\
   forall p, In p pts -> orient l t p < 0 /\ orient t r p < 0 /\ orient r l p < 0.
+
+(* the two facts to which the preservation of edge closure is reduced (BowyerWatsonProofs.v §12) *)
+Definition edge_unique (T : list tri) : Prop :=            (* no directed edge belongs to two triangles *)
+  forall t g e, In t T -> In g T -> In e (edges t) -> In e (edges g) -> t = g.
+Definition boundary_chains (P : list pt) (T : list tri) (i : nat) : Prop :=   (* the boundary edges form closed chains *)
+  forall u v, In (u, v) (cavity_boundary P T i) ->
+    (exists x, In (v, x) (cavity_boundary P T i)) /\ (exists y, In (y, u) (cavity_boundary P T i)).
